@@ -14,7 +14,8 @@ ASSUMPTIONS = ["ROC < 2^32-1 throughout", "authentic traffic (sender session wit
 def scenario(rng, k, tier):
     """sender S(1) and receiver R(2); both get set_roc(r) at some point; traffic continues over >= 2 wraps."""
     ssrc = rng.randrange(1, 1 << 32)
-    p = default_policy(rng, ssrc, window=rng.choice([128, 1024]))
+    xt = k % 4 == 2       # RFC 6904 ids configured and every packet carries a listed element (the header-extension IV is built from the same index)
+    p = default_policy(rng, ssrc, window=rng.choice([128, 1024]), **({"enc_xtn": b"\x01"} if xt else {}))
     L = [p.line(1), "create 1 1", "create 2 1"]
     info = []          # (line_no, kind, data) for the monitor
     cur_roc = 0
@@ -29,7 +30,7 @@ def scenario(rng, k, tier):
         started = True
         seq = rng.choice([65000, 65400, 65530]) if klass == 2 else rng.choice([60000, 65000])
     def send(seqv, expect_roc, refused_first=0):
-        pkt = rtp_packet(ssrc, seqv & 0xffff, payload=bytes([seqv & 0xff] * 8))
+        pkt = rtp_packet(ssrc, seqv & 0xffff, payload=bytes([seqv & 0xff] * 8), ext=(one_byte_ext([(1, b"zz")]) if xt else None))
         L.append(pkt_op("protect", 1, pkt, cap=len(pkt) + 20, mode=0))
         a = len(L)
         # deliveries the receiver must refuse WITHOUT losing the imposed ROC ("# X" = not judged): a damaged copy (bit flipped in
